@@ -19,11 +19,15 @@ RULE = (
     "the grid > 1e-2)"
 )
 ASSUMPTIONS = [
-    "mass: |I_h - 1| <= 5e-3 + 4*res, res = max(|I_h - I_2h|, |I_2h - I_4h|), with res itself <= 2e-2 (else the state is reported unresolved, never passed)",
+    "mass: |I_h - 1| <= 5e-3 + 4*res, res = max(|I_h - I_2h|, |I_2h - I_4h|), with res itself <= 3e-3 (else the state is reported unresolved, never passed)",
     "sampler: fixed key from VERIF_SEED; 1-D: N=2e5, DKW bound for alpha=1e-9 plus 2e-3 quadrature slack; 2-D: N=2e5, chi-square over cells with expected count >= 40, threshold chi2.isf(1e-9, dof) + 5 sqrt(dof)",
     "this bounds the discrepancy between sampler and density by the quadrature resolution and the power of N draws; it is not a proof of distributional equality",
 ]
 N1 = 200_000
+# a state counts as resolved only if three successive grid resolutions agree to 3e-3: strongly perturbed flows (e.g. a planar
+# layer with 1 + w.u-hat = 4e-4, whose inverse stretches by 2300x) produce densities no affordable grid resolves, and their
+# successive differences can look deceptively small at 1e-2
+RES_MAX = 3e-3
 DKW = float(np.sqrt(np.log(2 / 1e-9) / (2 * N1)))
 
 
@@ -118,11 +122,11 @@ def run_case(case):
             digest.update(np.ascontiguousarray(dens[::400]).tobytes())
             ld_span = float(np.nanmax(np.abs(np.diff(np.log(np.maximum(dens[dens > 1e-200], 1e-300))))) if (dens > 1e-200).sum() > 2 else 0.0)
             nt += 1
-            if res > 2e-2:
+            if res > RES_MAX:
                 skipped["unresolved-quadrature"] = skipped.get("unresolved-quadrature", 0) + 1
             elif abs(I_h - 1) > 5e-3 + 4 * res:
                 add("mass", f"{tag} level {case['level']} cond#{ci}: integral of exp(log_prob) over [{-L:g},{L:g}] = {I_h:.6f} (resolution term {res:.2g})")
-            if smp is not None and res <= 2e-2:
+            if smp is not None and res <= RES_MAX:
                 dj = dens * jac
                 cdf = np.concatenate([[0.0], np.cumsum(0.5 * (dj[1:] + dj[:-1]) * np.diff(u))])
                 cdf = cdf / max(cdf[-1], 1e-300) if abs(cdf[-1] - 1) < 5e-3 + 4 * res else cdf
@@ -177,7 +181,7 @@ def run_case(case):
             digest.update(np.ascontiguousarray(dens[::30, ::30]).tobytes())
             if np.isnan(lp).any():
                 add("nan-logprob", f"{tag}: NaN log_prob on the grid")
-            if res > 2e-2:
+            if res > RES_MAX:
                 skipped["unresolved-quadrature"] = skipped.get("unresolved-quadrature", 0) + 1
                 continue
             if abs(I_h - 1) > 5e-3 + 4 * res:
@@ -230,5 +234,8 @@ def run_case(case):
                     sample = {"dist": tag, "mass": I_h, "chi2": chi2, "threshold": thr, "dof": dof, "box": L}
             elif sample is None:
                 sample = {"dist": tag, "mass": I_h, "box": L}
+    outc = {f"{case['leg']}:{'ok' if not viols else 'BAD'}": 1}
+    if skipped.get("unresolved-quadrature"):
+        outc[f"unresolved:{tag}|level={case['level']}"] = skipped["unresolved-quadrature"]
     return {"transitions": tr, "traces": tr, "states": 1, "nontrivial": nt, "violations": viols, "skipped": skipped,
-            "outcomes": {f"{case['leg']}:{'ok' if not viols else 'BAD'}": 1}, "digest": digest.hexdigest(), "sample": sample}
+            "outcomes": outc, "digest": digest.hexdigest(), "sample": sample}
